@@ -136,9 +136,21 @@ package wal
 //@ trusted
 //@ modifies fields(readOnlySegmentsGroup), fields(readOnlySegment)
 
-//@ func readOnlySegmentsGroup.TrimSegments
-//@ trusted
-//@ modifies fields(readOnlySegmentsGroup), fields(readOnlySegment)
+// TrimSegments(offset) deletes whole segments only: every segment that starts after
+// offset, and the segment that contains offset (the one with the greatest base
+// offset <= offset), stay.
+//
+//@ func readOnlySegmentsGroup.TrimSegments(r, offset) (err)
+//@ property C09
+//@ requires -1 <= offset
+//@ assume r.allSegments != nil && r.openSegments != nil because "both trees are created by newReadOnlySegmentsGroup, the only constructor, and never reassigned"
+//@ assume forall k int64 :: ghset(keys, r.allSegments, k) ==> k >= 0 because "segment base offsets are entry offsets, which are never negative (newReadOnlySegmentsGroup parses them from file names written by AddedNewSegment)"
+//@ assume at call Tree.Get#0: found ==> value != nil because "openSegments only holds RefCount objects created by object.NewRefCount (Get, PollHighestSegment)"
+//@ loop 0 modifies ghset(keys, r.allSegments), ghset(keys, r.openSegments), fields(readOnlySegment), fields(readWriteSegment), fresh
+//@ loop 0 invariant r.allSegments == old(r.allSegments) && r.openSegments == old(r.openSegments) && r.allSegments != nil && r.openSegments != nil
+//@ loop 0 invariant forall s int64 :: old(ghset(keys, r.allSegments, s)) && s > cutoffSegment ==> ghset(keys, r.allSegments, s)
+//@ ensures forall s int64 :: old(ghset(keys, r.allSegments, s)) && (s > offset || forall j int64 :: old(ghset(keys, r.allSegments, j)) && j <= offset ==> j <= s) ==> ghset(keys, r.allSegments, s)
+//@ modifies fields(readOnlySegment), fields(readWriteSegment), ghset(keys, r.allSegments), ghset(keys, r.openSegments)
 
 //@ func readOnlySegmentsGroup.PollHighestSegment
 //@ trusted
@@ -238,11 +250,11 @@ package wal
 
 //@ func wal.trim
 //@ property C09
-//@ requires walMetrics(t) && t.readOnlySegments != nil
+//@ requires walMetrics(t) && t.readOnlySegments != nil && t.firstOffset.v >= -1
 //@ ensures result == nil ==> t.firstOffset.v == ite(firstOffset <= old(t.firstOffset.v), old(t.firstOffset.v), firstOffset)
 //@ ensures result != nil ==> t.firstOffset.v == old(t.firstOffset.v)
 //@ ensures t.lastAppendedOffset.v == old(t.lastAppendedOffset.v) && t.lastSyncedOffset.v == old(t.lastSyncedOffset.v)
-//@ modifies t.firstOffset.v, fields(readOnlySegmentsGroup), fields(readOnlySegment)
+//@ modifies t.firstOffset.v, fields(readOnlySegmentsGroup), fields(readOnlySegment), fields(readWriteSegment), ghset(keys, as(t.readOnlySegments, *readOnlySegmentsGroup).allSegments), ghset(keys, as(t.readOnlySegments, *readOnlySegmentsGroup).openSegments)
 
 // TruncateLog: on success the log ends exactly at the returned offset, both as
 // appended and as synced, so that the next append is accepted at res+1.
